@@ -5,6 +5,7 @@
   invariant — in particular the empty world and every scenario's initial world — and every reachable state, i.e.
   any tree shape, depth and recursion pattern). Helper lemmas live in `Cobweb.Proofs.*`.
 -/
+import Cobweb.Proofs.Boot
 import Cobweb.Proofs.CtlStep
 import Cobweb.Proofs.Counts
 
@@ -85,14 +86,14 @@ theorem complete_at_quiescence (hc : Ctl s0) (hr : Reach p h s0 s) (hq : s.stack
     * `#postponed = #replay`: every postponed command has been replayed, exactly once;
     * `#enter = #exit`: every run that started has finished, with everything it caused;
     * `abortRoot` and `discard` never occur: no command is dropped because its callback is missing. -/
-theorem exactly_once_counts (hr : Reach p h ({} : St) s) (hq : s.stack = []) (sys : Nat) :
+theorem exactly_once_counts {s0 : St} (hI0 : CoreInv s0) (hr : Reach p h s0 s) (hq : s.stack = []) (sys : Nat) :
     nE (.applied sys) s = nE (.enter sys) s + nE (.abortNoEntity sys) s + nE (.abortNoStorage sys) s + nE (.replay sys) s ∧
     nE (.postponed sys) s = nE (.replay sys) s ∧
     nE (.enter sys) s = nE (.exit sys) s ∧
     nE (.abortRoot sys) s = 0 ∧ nE (.discard sys) s = 0 := by
-  have c := cnt_reach p h cnt_default hr
-  have nb := nobad_reach p h ctl_default nobad_default hr
-  have hbuf := (complete_at_quiescence p h ctl_default hr hq).1
+  have c := (core_reach_from p h hI0 hr).cnt
+  have nb := (core_reach_from p h hI0 hr).nobad
+  have hbuf := (complete_at_quiescence p h hI0.inv5.ctl hr hq).1
   have z1 := nE_zero_of_nobad nb (.abortRoot sys) rfl
   have z2 := nE_zero_of_nobad nb (.discard sys) rfl
   have a := c.applied sys
@@ -105,7 +106,7 @@ theorem exactly_once_counts (hr : Reach p h ({} : St) s) (hq : s.stack = []) (sy
 
 /-- The same balances in the middle of a tree: what is not yet accounted for is exactly what is still pending on the
     control stack (`runnerLookup` frames, `afterBody` frames) and in the postponed queue / replay loops. -/
-theorem counts_mid_tree (hr : Reach p h ({} : St) s) : Cnt s := cnt_reach p h cnt_default hr
+theorem counts_mid_tree {s0 : St} (hI0 : CoreInv s0) (hr : Reach p h s0 s) : Cnt s := (core_reach_from p h hI0 hr).cnt
 
 /-- Non-vacuity of `exactly_once_counts`: a system that re-runs itself once from its first body. The inner command is
     postponed and replayed: three arrivals at the runner, two runs, one postponement, one replay; the tree is complete. -/
